@@ -22,6 +22,12 @@ pub fn at_discontinuity(fl: &Flags, x: f64, kind: &str) -> R<()> {
     if hit { Err(Stop::Unspec("DiscontinuityAfterInexactOperation")) } else { Ok(()) }
 }
 
+/// functions that amplify the relative error of an inexact operand by its magnitude (exp, powers with
+/// large exponents, circular functions of large arguments): outside what a fixed tolerance can decide
+pub fn amplifies(fl: &Flags, magnitude: f64) -> R<()> {
+    if fl.tol.get() > 0.0 && !(magnitude.abs() <= 1e3) { Err(Stop::Unspec("ErrorAmplificationAfterInexactOperation")) } else { Ok(()) }
+}
+
 pub struct F64Sem {
     pub ph: f64,
     pub flags: Flags,
@@ -110,6 +116,7 @@ pub fn agg_f64(func: &str, a: &[f64], fl: &Flags) -> R<f64> {
 /// one-argument functions shared by f64 / number (value semantics on doubles)
 pub fn fn1_f64(func: &str, x: f64, fl: &Flags) -> R<f64> {
     let t = |v: f64| -> R<f64> { fl.inexact(TOL); Ok(v) };
+    if matches!(func, "Exp" | "Exp2" | "Sin" | "Cos" | "Tan" | "Sinh" | "Cosh") { amplifies(fl, x)?; }
     match func { "Floor" | "Ceil" | "Truncate" => at_discontinuity(fl, x, "int")?, "Round" => at_discontinuity(fl, x, "half")?, "Sign" => at_discontinuity(fl, x, "zero")?, _ => {} }
     match func {
         "Abs" => Ok(x.abs()),
@@ -132,8 +139,9 @@ pub fn fn1_f64(func: &str, x: f64, fl: &Flags) -> R<f64> {
 
 pub fn fn2_f64(func: &str, a: f64, b: f64, fl: &Flags) -> R<f64> {
     let t = |v: f64| -> R<f64> { fl.inexact(TOL); Ok(v) };
+    if func == "Pow" || func == "Root" { amplifies(fl, if func == "Pow" { b } else { 1.0 / a })?; }
     match func {
-        "Mod" => Ok(a % b),
+        "Mod" => { if fl.tol.get() > 0.0 { return Err(Stop::Unspec("RemainderOfInexactOperand")); } Ok(a % b) }
         "Pow" => Ok(a.powf(b)),
         "Atan2" => t(a.atan2(b)),
         "Log" => t(a.ln() / b.ln()),
@@ -169,12 +177,13 @@ impl Sem for F64Sem {
             "add" | "sub" => { let r = if op == "add" { a + b } else { a - b }; ill_conditioned(&self.flags, a, b, r)?; Ok(r) }
             "mul" => Ok(a * b), "div" => Ok(a / b),
             "mod" => { if self.flags.tol.get() > 0.0 { return Err(Stop::Unspec("RemainderOfInexactOperand")); } Ok(a % b) }
-            "pow" => Ok(a.powf(b)),
+            "pow" => { amplifies(&self.flags, b)?; Ok(a.powf(b)) }
             _ => Err(Stop::Unspec("UnknownBinary")),
         }
     }
     fn sup(&self, base: f64, digits: &str) -> R<f64> {
         let n = digits.parse::<f64>().map_err(|_| Stop::Err("malformed superscript"))?;
+        amplifies(&self.flags, n)?;
         Ok(base.powf(n))
     }
     fn call(&self, func: &str, args: Vec<f64>) -> R<f64> {
